@@ -45,3 +45,28 @@ Print Assumptions C12_channel_slices_tile.
 Print Assumptions C12_overrides_verbatim.
 Print Assumptions C12_defaults_otherwise.
 Print Assumptions C12_sorted_lists_listing_invariant.
+
+(* ---- the whole construction does not depend on the listing order (ConfigPerm.v): channels, the samples of a channel, the
+   modifiers of a sample and the measurement's parameter configurations may each be listed in any order; the result of
+   build (the model record, or the error) is literally the same.  No distinct-name premise. ---- *)
+Require Import PV.ConfigPerm.
+Theorem C12_build_listing_invariant : forall N (sp sp' : spec N), spec_perm N sp sp' -> build N sp' = build N sp.
+Proof. exact build_listing_invariant. Qed.
+Theorem C12_spec_perm_is : forall N (sp sp' : spec N), spec_perm N sp sp' <->
+  (exists cs, Forall2 (fun c c' => c_name c = c_name c' /\
+                 exists ss, Forall2 (fun s s' => s_name s = s_name s' /\ s_data s = s_data s' /\ Permutation.Permutation (s_mods s) (s_mods s'))
+                                    (c_samples c) ss /\ Permutation.Permutation ss (c_samples c'))
+              (channels sp) cs /\ Permutation.Permutation cs (channels sp')) /\
+  Permutation.Permutation (parameters sp) (parameters sp') /\ poi sp = poi sp'.
+Proof. intros N sp sp'. reflexivity. Qed.
+Theorem C12_spec_perm_sym : forall N (sp sp' : spec N), spec_perm N sp sp' -> spec_perm N sp' sp.
+Proof. exact spec_perm_sym. Qed.
+(* the sorted configuration lists of a reordered specification *)
+Theorem C12_config_lists_listing_invariant : forall N (sp sp' : spec N), spec_perm N sp sp' ->
+  cfg_channels N sp' = cfg_channels N sp /\ cfg_samples N sp' = cfg_samples N sp /\ cfg_modifiers N sp' = cfg_modifiers N sp.
+Proof. intros N sp sp' H. exact (conj (cfg_channels_perm N sp sp' H) (conj (cfg_samples_perm N sp sp' H) (cfg_modifiers_perm N sp sp' H))). Qed.
+
+Print Assumptions C12_build_listing_invariant.
+Print Assumptions C12_spec_perm_is.
+Print Assumptions C12_spec_perm_sym.
+Print Assumptions C12_config_lists_listing_invariant.
